@@ -214,3 +214,37 @@ m("c18-benign-refactor", "C18", "core/src/proof/path_proof.rs",
   "        let cur_node = self.terminal.node::<H>();\n",
   "        let cur_node = {\n            let t = &self.terminal;\n            t.node::<H>()\n        };\n",
   None)
+
+# ---------------- C20 ----------------
+m("c20-lock-after-meta-in-create", "C20", "nomt/src/store/mod.rs",
+  "    let flock = Flock::lock(&o.path, \".lock\")?;\n\n    let meta_fd = std::fs::File::create(o.path.join(\"meta\"))?;\n",
+  "    let meta_fd = std::fs::File::create(o.path.join(\"meta\"))?;\n    let flock = Flock::lock(&o.path, \".lock\")?;\n",
+  "D1|store::create|touch|create(meta)")
+m("c20-flock-dropped-before-shutdown", "C20", "nomt/src/store/mod.rs",
+  "        self.io_pool.shutdown();\n        drop(self.flock.take());\n",
+  "        drop(self.flock.take());\n        self.io_pool.shutdown();\n",
+  "D3|<store::Shared as Drop>::drop|shutdown-before-release")
+m("c20-drop-lock-nb", "C20", "nomt/src/sys/unix.rs",
+  "libc::flock(file.as_raw_fd(), libc::LOCK_EX | libc::LOCK_NB)",
+  "libc::flock(file.as_raw_fd(), libc::LOCK_EX)",
+  "D2|sys::unix::try_lock_exclusive|flags=LOCK_EX|LOCK_NB")
+m("c20-ok-on-error-arm", "C20", "nomt/src/store/flock.rs",
+  "            Err(e) => {\n                anyhow::bail!(\"Failed to lock directory: {e}\");\n            }\n",
+  "            Err(e) => {\n                eprintln!(\"Failed to lock directory: {e}\");\n                Ok(Self { lock_fd: OpenOptions::new().read(true).open(db_dir.join(lock_filename))? })\n            }\n",
+  "D2|store::flock::Flock::lock|ok-arm-only")
+m("c20-open-reads-meta-before-lock", "C20", "nomt/src/store/mod.rs",
+  "            let mut options = OpenOptions::new();\n            options.read(true);\n            db_dir_fd = options.open(&o.path)?;\n            flock = flock::Flock::lock(&o.path, \".lock\")?;\n",
+  "            let mut options = OpenOptions::new();\n            options.read(true);\n            db_dir_fd = options.open(&o.path)?;\n            let _probe = meta::Meta::read(&page_pool, &std::fs::File::open(o.path.join(\"meta\"))?)?;\n            flock = flock::Flock::lock(&o.path, \".lock\")?;\n",
+  "D1|store::Store::open|")
+m("c20-lock-unchecked", "C20", "nomt/src/store/mod.rs",
+  "    let flock = Flock::lock(&o.path, \".lock\")?;\n\n    let meta_fd",
+  "    let flock = Flock::lock(&o.path, \".lock\");\n    let flock = match flock { Ok(f) => f, Err(_) => Flock::lock(&o.path, \".lock2\")? };\n\n    let meta_fd",
+  "D1|store::create|lock-call")
+m("c20-unlock-elsewhere", "C20", "nomt/src/store/flock.rs",
+  "impl Drop for Flock {",
+  "impl Flock {\n    pub fn release_early(&self) {\n        let _ = crate::sys::unix::unlock(&self.lock_fd);\n    }\n}\n\nimpl Drop for Flock {",
+  "D4|sys::unix::unlock|single-unlock-site")
+m("c20-flock-not-stored", "C20", "nomt/src/store/mod.rs",
+  "                flock: Some(flock),\n",
+  "                flock: { drop(flock); None },\n",
+  "D3|store::Store::open|")
